@@ -1608,7 +1608,7 @@ def select__fold_left(self: XPathFunction, context: ta.ContextType = None) \
 
     zero = self.get_argument(context, index=1)
 
-    result = zero
+    result = [] if zero is None else zero
     for item in self[0].select(context):
         result = func(result, item, context=context)
 
@@ -1633,7 +1633,7 @@ def select__fold_right(self: XPathFunction, context: ta.ContextType = None) \
 
     zero = self.get_argument(context, index=1)
 
-    result = zero
+    result = [] if zero is None else zero
     sequence = [x for x in self[0].select(context)]
 
     for item in reversed(sequence):
